@@ -105,7 +105,7 @@ def run(ctx):
             kinds[k] = kinds.get(k, 0) + 1
     ctx.coverage.update({
         "evaluations": len(obs), "distinct_nontrivial": len(distinct),
-        "rule": "%d values per registered service / extension-object type (%d types) and %d per hand-written codec, generated from the reflect.Type by the seeded PRNG: boundary-biased integers, NaN payloads, nil/empty/short slices and byte strings, DateTime zero/min/max/off-grid/9999-12-31/1601/before 1677, every Variant type id x scalar/nil/empty/1-D/2-D/3-D, random DataValue/DiagnosticInfo/LocalizedText masks, all six NodeID encodings x flag bits, extension objects empty/XML/any registered body; distinct = distinct (type, encoding) with a non-empty encoding" % (n, len({o["ty"] for o in obs}) - 8, 12 * n),
+        "rule": "%d values per registered service / extension-object type (%d types) and %d per hand-written codec, generated from the reflect.Type by the seeded PRNG: boundary-biased integers, NaN payloads, nil/empty/short slices and byte strings, DateTime zero/min/max/off-grid/9999-12-31/1601/before 1677, every Variant type id x scalar/nil/empty/1-D/2-D/3-D, plus (deterministic) for every builtin type id 1-D and n-D arrays of MINIMAL-size elements (bare, inside a DataValue followed by status/timestamps, inside a ReadResponse) and rank 3/4 arrays with pairwise different elements and trailing dimensions > 1, random DataValue/DiagnosticInfo/LocalizedText masks, all six NodeID encodings x flag bits, extension objects empty/XML/any registered body; distinct = distinct (type, encoding) with a non-empty encoding" % (n, len({o["ty"] for o in obs}) - 8, 12 * n),
         "samples": [{k: o[k] for k in ("ty", "val", "hex", "consumed") if k in o} for o in obs[:2] + obs[-2:]],
         "types_hit": len({o["ty"] for o in obs}),
         "variant_shapes_hit": len(kinds),
